@@ -5,6 +5,8 @@ From Coq Require Import Sorting.Sorted.
 From DynVerif Require Import Derived Stats PySupportStats.
 From DynVerif.gen Require Import PyGenStats.
 From DynVerif.proofs Require Import PyGenStatsEq.
+From DynVerif Require Import StatsSpec.
+From DynVerif.proofs Require Import HistSpecFacts.
 
 Lemma reach_InvSnap dir cs : InvSnap (run_calls (G0 dir) cs).
 Proof. apply (InvSnap_run cs (G0 dir) []); [reflexivity|apply Inv_init|apply InvSnap_init]. Qed.
@@ -63,6 +65,19 @@ Theorem C04_source_text : forall g,
   py_temporal_snapshots_ids g = snapshot_ids g /\ py_avg_number_of_nodes g = avg_number_of_nodes g.
 Proof. intros g. split; [apply py_temporal_snapshots_ids_eq|apply py_avg_number_of_nodes_eq]. Qed.
 Print Assumptions C04_source_text.
+
+(** over the HISTORY: the snapshot ids enumerate (ascending, no repetition) exactly the instants covered by the span of some accepted
+    call, and the count at t is the number of DISTINCT pairs of the history present at t -- counted over any duplicate-free list of keys
+    that covers the history *)
+Theorem C04_history : forall dir cs,
+  let g := run_calls (G0 dir) cs in let h := accepted (G0 dir) cs in
+  enumerates (snapshot_ids g) (fun t => hs_inhabited h t = true) /\ StronglySorted Z.lt (snapshot_ids g) /\
+  forall t ks, NoDup ks -> (forall c, In c h -> In (ckey dir c) ks) ->
+    interactions_per_snapshot g t = (2 * Z.of_nat (length (filter (fun k => pres dir true h k t) ks)), 2).
+Proof.
+  intros dir cs. destruct (hist_ids dir cs) as (H1 & H2). split; [exact H1|]. split; [exact H2|exact (hist_count dir cs)].
+Qed.
+Print Assumptions C04_history.
 
 Example C04_example :
   let g := run_calls (G0 false) [mkCall 1 2 0 (Some 3); mkCall 2 1 2 (Some 5); mkCall 1 3 1 None; mkCall 1 3 1 None] in
